@@ -218,9 +218,12 @@ Definition spec_ok (c : case) (o : OUT) : bool :=
   | CSched ps _ => sched_spec_ok ps o
   end.
 
-(* ---- open known finding C10-rebase-straddle (class 1): a flush whose load of `current` (1008)
-   precedes the `current` store (1006) of a re-basing absolute and whose swap of `last` (1009)
-   follows that absolute's `last.store` (1005).  Decided on the case by walking the step trace of
+(* ---- open known finding C10-rebase-straddle (class 1): the two stores of a re-basing (first)
+   absolute, `last.store` (1005) and `current.store` (1006), are not atomic.  Class = (a) a flush
+   whose load of `current` (1008) precedes that 1006 and whose swap of `last` (1009) follows that
+   1005, or (b) another re-basing absolute executing its 1005 inside the window (two threads
+   mixing increments and absolutes: last and current end up from different calls).  Either way
+   last > current and the next delta wraps.  Decided on the case by walking the step trace of
    the model run: [reb] = threads between their 1005 and 1006 steps, [open] = flushing threads
    between their 1008 and 1009 steps with a taint flag. *)
 Fixpoint mem_n (x : N) (l : list N) : bool := match l with [] => false | y :: r => (x =? y) || mem_n x r end.
@@ -229,7 +232,11 @@ Fixpoint straddle_walk (tr : list (N * N)) (reb : list N) (opn : list (N * bool)
   match tr with
   | [] => false
   | (t, s) :: r =>
-      if s =? 1005 then straddle_walk r (t :: reb) (map (fun x => (fst x, true)) opn)
+      if s =? 1005 then
+        match reb with
+        | [] => straddle_walk r (t :: reb) (map (fun x => (fst x, true)) opn)
+        | _ => true                                  (* a second re-basing absolute inside the first one's window *)
+        end
       else if s =? 1006 then straddle_walk r (del_n t reb) opn
       else if s =? 1008 then straddle_walk r reb ((t, match reb with [] => false | _ => true end) :: opn)
       else if s =? 1009 then
